@@ -670,9 +670,9 @@ Error RACFGBuilder::on_before_invoke(InvokeNode* invoke_node) noexcept {
               continue;
             }
 
+            // Stores the pointer to the stack slot of the argument as well.
             Reg indirect_reg;
             ASMJIT_PROPAGATE(move_vec_to_ptr(invoke_node, arg, reg.as<Vec>(), Out(indirect_reg)));
-            ASMJIT_PROPAGATE(move_reg_to_stack_arg(invoke_node, arg, indirect_reg));
           }
           else {
             ASMJIT_PROPAGATE(move_reg_to_stack_arg(invoke_node, arg, reg));
@@ -789,6 +789,11 @@ Error RACFGBuilder::on_invoke(InvokeNode* invoke_node, RAInstBuilder& ib) noexce
         ASMJIT_PROPAGATE(_pass.virt_index_as_work_reg(&work_reg, Operand::virt_id_to_index(reg.id())));
 
         if (arg.is_indirect()) {
+          // The pointer to an argument passed by reference via stack has already been stored to its stack slot.
+          if (!arg.is_reg()) {
+            continue;
+          }
+
           RegGroup reg_group = work_reg->group();
           if (reg_group != RegGroup::kGp) {
             return make_error(Error::kInvalidState);
@@ -859,7 +864,7 @@ static inline OperandSignature vec_reg_signature_by_size(uint32_t size) noexcept
 
 Error RACFGBuilder::move_vec_to_ptr(InvokeNode* invoke_node, const FuncValue& arg, const Vec& src, Out<Reg> out) noexcept {
   Support::maybe_unused(invoke_node);
-  ASMJIT_ASSERT(arg.is_reg());
+  ASMJIT_ASSERT(arg.is_reg() || arg.is_stack());
 
   uint32_t arg_size = TypeUtils::size_of(arg.type_id());
   if (arg_size == 0) {
@@ -1016,6 +1021,20 @@ Error RACFGBuilder::move_reg_to_stack_arg(InvokeNode* invoke_node, const FuncVal
 
   TypeId dst_type_id = arg.type_id();
   TypeId src_type_id = vr->type_id();
+
+  // The stack slot of an argument passed by reference holds a pointer to the value, not the value itself.
+  if (arg.is_indirect()) {
+    if (!reg.is_gp()) {
+      return make_error(Error::kInvalidAssignment);
+    }
+
+    if (register_size == 8) {
+      goto MovGpQ;
+    }
+    else {
+      goto MovGpD;
+    }
+  }
 
   switch (dst_type_id) {
     case TypeId::kInt64:
